@@ -9,6 +9,11 @@ use super::p_iter::*;
 verus! {
 
 #[verifier::external_type_specification]
+#[verifier::external_body]
+pub struct ExUpdateOpaque(rustybgp_packet::bgp::Update);
+
+
+#[verifier::external_type_specification]
 pub struct ExPeerRole(PeerRole);
 
 #[verifier::external_type_specification]
